@@ -113,6 +113,13 @@ func vctxStage(dir string, seed uint64, tier string) error {
 	add("framing: {a: '1:b1:c'} vs {a: '', b: c}-like split", "corpus", mkReq(false, nil, "a", "1:b1:c"), mkReq(false, nil, "a", "", "b", "c"))
 	add("framing: name that looks like a length prefix", "corpus", mkReq(false, nil, "1:a", "x"), mkReq(false, nil, "1", "a1:x"))
 	add("framing: two short keys vs one long key holding their rendering", "corpus", mkReq(false, nil, "a", "x", "b", "y"), mkReq(false, nil, "a", "x1:b1:y"))
+	// pairs that collide under plausible sloppier encodings (no length prefixes, a separator only, names only, bytes only)
+	add("framing: {a: x, b: y} vs {a: 'xb:y'} (name:bytes joined without lengths)", "corpus", mkReq(false, nil, "a", "x", "b", "y"), mkReq(false, nil, "a", "xb:y"))
+	add("framing: {a: x, b: y} vs {a: xby} (plain concatenation)", "corpus", mkReq(false, nil, "a", "x", "b", "y"), mkReq(false, nil, "a", "xby"))
+	add("framing: {ab: c} vs {a: bc} (plain concatenation)", "corpus", mkReq(false, nil, "ab", "c"), mkReq(false, nil, "a", "bc"))
+	add("framing: {a: 'x\\nb=y'} vs {a: x, b: y} (line per key)", "corpus", mkReq(false, nil, "a", "x\nb=y"), mkReq(false, nil, "a", "x", "b", "y"))
+	add("bytes attached to the other name: {a: x, b: y} vs {a: y, b: x} with equal multiset of bytes", "corpus", mkReq(false, nil, "a", "x", "b", "y"), mkReq(false, nil, "b", "x", "a", "y"))
+	add("same bytes under another name", "corpus", mkReq(false, nil, "a.rsa.pub", "KEY"), mkReq(false, nil, "b.rsa.pub", "KEY"))
 	add("framing: ten-byte key (two-digit length)", "corpus", mkReq(false, nil, "a", "0123456789"), mkReq(false, nil, "a", "012345678"))
 	add("bytes outside ASCII, newline in a name", "corpus", mkReq(false, nil, "k\n.rsa.pub", "\x00\xff\xfe"), mkReq(false, nil, "k\n.rsa.pub", "\x00\xff\xfd"))
 	add("names that sort differently as bytes and as text", "corpus", mkReq(false, nil, "B", "1", "a", "2", "\xc3\xa9", "3"), mkReq(false, nil, "a", "2", "B", "1", "\xc3\xa9", "3"))
@@ -134,7 +141,11 @@ func vctxStage(dir string, seed uint64, tier string) error {
 		if r.Chance(1, 6) {
 			q.Listed = [][]string{here, {"https://repo.example/os/"}, {"https://other.example/x", "https://repo.example/os"}}[r.Intn(3)]
 		}
-		for j := r.Intn(4); j > 0; j-- {
+		nk := 1 + r.Intn(3)
+		if r.Chance(1, 12) {
+			nk = 0
+		}
+		for j := nk; j > 0; j-- {
 			nm := gal.Pick(r, names)
 			if _, dup := q.Keys[nm]; !dup {
 				q.Order = append(q.Order, nm)
